@@ -93,6 +93,8 @@ def draw_scenario(seed, i, kind=None, real_writers=False):
         p["chunks"] = [rng.choice([1, 100, 4096, 16384, 16384, 70000]) for _ in range(n)]
         p["mode"] = rng.choice(["ok", "ok", "429-then-ok", "read-error", "429-forever"])
         p["prev_size"] = rng.randrange(1, 5000)
+        # the scratch file of an earlier transfer that broke in mid-body is still lying around
+        p["leftover"] = rng.randrange(1, 40000) if rng.random() < 0.35 else 0
     elif kind == "download_fetcher":
         # several images through Fetcher._download_image (its own temp-name choice, its pools);
         # the same URL may be scheduled under two titles (File:/Datei: aliases, titles derived from URLs)
@@ -115,7 +117,10 @@ def draw_scenario(seed, i, kind=None, real_writers=False):
         p["break_before"] = [rng.choice([None, None, None, 0, 1, 2]) for _ in urls]
     elif kind == "render_real":
         p["writer"] = rng.choice(["rl", "rl", "odf"])
-        p["articles"] = rng.randint(1, 2)
+        rng.randint(1, 2)  # (kept for the parameter stream)
+        # one article: with two the rl writer adds a table of contents, which fails on the unchanged tree with
+        # the installed reportlab ("flowable given negative availWidth", mwlib/writers/rl/toc.py) - see DESIGN 12
+        p["articles"] = 1
         p["prev_size"] = rng.randrange(1, 5000)
         p["status_file"] = True
         p["bufsizes"] = [rng.choice([8192, 1 << 20])]
@@ -668,6 +673,11 @@ class Scenario:
 
     def stage(self):
         self.reset_out()
+        if self.p["kind"] == "download" and self.p.get("leftover"):
+            import random
+            left = (self.published["image"] + "\xb7").encode("utf-8")
+            with open(left, "wb") as f:
+                f.write(_blob(random.Random(self.p["content_seed"] ^ 0x5a5a), self.p["leftover"]))
 
     # -- readers -------------------------------------------------------------------------
     def read_state(self, label):
@@ -781,13 +791,23 @@ def explore_scenario(p, root, stats, only=None):
     expected_raise = (p["kind"] == "download" and p["mode"] in ("read-error", "429-forever")) or \
                      (p["kind"] == "render" and p["writer_fails"])
     if ref["info"].get("raised") and not expected_raise:
-        # nothing was injected and the producer failed all the same: whatever it was about to
-        # publish is not there
-        stats["scenarios"] += 1
-        stats["points"] += 1
-        return {"fault": ["none", -1], "ref": ref,
-                "violation": ("A-final", f"{p['kind']}: the producer failed in a fault-free run ({ref['info']['raised'][:200]}): "
-                              f"the complete new version was never published")}
+        # Nothing was injected and the producer failed all the same.  That is a defect of the producer,
+        # but not one C20 speaks about (nothing half-written is visible when nothing is published):
+        # what the reader finds is judged, the scenario's fault points are skipped.  (If every scenario
+        # ends like this the check has no evaluations and exits 2: no verdict.)
+        Stats.merge(stats["probes"], {f"producer-failed-without-fault:{p['kind']}": 1})
+        bad = None
+        for label in sc.published:  # judged like a failed run: absent / previous / complete only
+            st_ = sc.read_state(label)
+            if st_[0] == "garbage":
+                bad = ("A-partial", f"{p['kind']}:{label} after a producer failure without any fault "
+                       f"({ref['info']['raised'][:120]}): {st_[1]}")
+                break
+        if bad:
+            stats["scenarios"] += 1
+            stats["points"] += 1
+            return {"fault": ["none", -1], "violation": bad, "ref": ref}
+        return None
     if bool(ref["info"].get("raised")) != expected_raise:
         raise HarnessError(f"reference run of scenario {p['index']} ({p['kind']}): raised={ref['info'].get('raised')!r} "
                            f"expected_raise={expected_raise}\n{ref['info'].get('tb', '')}")
